@@ -163,7 +163,7 @@ pub fn gen_ses<W: Write>(w: &mut W, tier: &str, seed: u64) {
     let mut rng = Rng::new(seed ^ 0x5E5);
     // every realistic line as a direct statement, and as a one-line program
     for l in LINES {
-        if l.starts_with("RENUM") || l.contains("RND") {
+        if l.contains("RND") {
             continue;
         }
         let mut s = Session::new();
@@ -292,7 +292,7 @@ pub fn gen_hist<W: Write>(w: &mut W, tier: &str, seed: u64) {
                     s.run_to_end(5000, &p.replies, 600);
                 }
                 7 => {
-                    s.enter(*rng.pick(&["RETURN", "NEXT", "NEXT I", "PRINT FNA(2)", "READ A:PRINT A", "RESTORE", "CLEAR", "PRINT A;B;I;Z1", "GOTO 10", "GOSUB 10", "STOP", "END", "TRON", "TROFF", "DIM D(3)", "A$=\"x\":B=3", "DEFINT A-B", "X=1/0", "PRINT Q(11)", "INPUT A", "PRINT POS(0);", "LIST 10:PRINT POS(0)"]));
+                    s.enter(*rng.pick(&["RENUM", "RENUM 100", "RENUM 1000,20,5", "RENUM 5,1,1", "RENUM ,,3", "RETURN", "NEXT", "NEXT I", "PRINT FNA(2)", "READ A:PRINT A", "RESTORE", "CLEAR", "PRINT A;B;I;Z1", "GOTO 10", "GOSUB 10", "STOP", "END", "TRON", "TROFF", "DIM D(3)", "A$=\"x\":B=3", "DEFINT A-B", "X=1/0", "PRINT Q(11)", "INPUT A", "PRINT POS(0);", "LIST 10:PRINT POS(0)"]));
                     s.run_to_end(5000, &p.replies, 600);
                 }
                 8 => {
@@ -309,7 +309,7 @@ pub fn gen_hist<W: Write>(w: &mut W, tier: &str, seed: u64) {
                 10 => s.drop_snapshot(),
                 11 => {
                     let soup = gen_soup(&mut rng);
-                    if !soup.contains("RENUM") {
+                    if true {
                         s.enter(&soup);
                         s.run_to_end(5000, &[], 50);
                     }
@@ -317,7 +317,7 @@ pub fn gen_hist<W: Write>(w: &mut W, tier: &str, seed: u64) {
                 12 => {
                     let l = *rng.pick(LINES);
                     let m = mutate(&mut rng, l);
-                    if !m.to_uppercase().contains("RENUM") && !m.to_uppercase().contains("RND") {
+                    if !m.to_uppercase().contains("RND") {
                         s.enter(&m);
                         s.run_to_end(5000, &[], 200);
                     }
